@@ -16,7 +16,8 @@
 (*    committed map; an iterator keeps its read transaction (snapshot) until dropped.   *)
 (*  * maybe_resize() (only called from batch()) enlarges the map iff more than 90 % is  *)
 (*    used, and only once no transaction is open in the process (enter_tx gate):        *)
-(*    it raises the flag `resizing` (from then on enter_tx lets nobody in), and the      *)
+(*    it raises the flag `resizing` (from then on enter_tx lets nobody in who does not   *)
+(*    already hold a transaction), and the                                               *)
 (*    enlargement itself (mdb_env_set_mapsize) is DEFERRED until the count of open       *)
 (*    transactions (OpenTxs below) is 0. The batch that asked for it is parked at the    *)
 (*    gate meanwhile (BeginWait .. Admit) and must NOT yet own LMDB's write transaction: *)
